@@ -205,7 +205,8 @@ Section Generic.
           /\ resolve_dec CT open on ch c tk = Some (call, stored)
           /\ r_meth call = m_name info /\ state_fits (m_mode info) (st_ty s) = true
           /\ cast_blocks info b cancel = false
-          /\ out = run_turn route info c s cancel rfail (if stored then Some (c, call) else None)).
+          /\ out = run_turn route info c s cancel rfail (if stored then Some (c, call) else None)
+                             (if stored then None else Some c)).
   Proof.
     cbv zeta. walk reg route b cancel rfail tc;
       try (left; rewrite ?El; cbn; repeat split; reflexivity).
@@ -324,7 +325,7 @@ Qed.
 Definition pay_ok (reg : registry) (p : payload) (pv : prov) : Prop :=
   match p, pv with
   | PCursor c s, (KCursor, m, c') => c = c' /\ exists info, lookup reg m = Some info /\ st_ty s = m_sty info
-  | PCall c r, (KCall, m, c') => c = c' /\ exists info, lookup reg m = Some info /\ r_meth r = m_name info
+  | PCall c r, (KCall, m, c') => c = c' /\ exists info, lookup reg m = Some info /\ r = resolved_for info c
   | _, _ => False
   end.
 Definition wf_tok (reg : registry) (t : tokS) (pv : prov) : Prop :=
@@ -333,12 +334,73 @@ Definition toks_ok (reg : registry) (toks : list tokS) (ptoks : list prov) (nc :
   Forall2 (wf_tok reg) toks ptoks
   /\ (forall k m c, In (k, m, c) ptoks -> c < nc)
   /\ (forall k m c k' m', In (k, m, c) ptoks -> In (k', m', c) ptoks -> m = m').
-(* every cache entry of a call names the method that minted the call *)
+(* every cache entry of a call is the fixed half that was minted for that call (so it
+   names the method that minted it) *)
 Definition cache_ok (reg : registry) (ch : cache) (ptoks : list prov) : Prop :=
   forall c r, cache_get c ch = Some r ->
-    exists k m info, In (k, m, c) ptoks /\ lookup reg m = Some info /\ r_meth r = m_name info.
+    exists k m info, In (k, m, c) ptoks /\ lookup reg m = Some info /\ r = resolved_for info c.
 Definition inv (reg : registry) (s : stS) (ptoks : list prov) : Prop :=
-  toks_ok reg (s_toks _ s) ptoks (s_ncalls _ s) /\ forall i, cache_ok reg (ch_of _ s i) ptoks.
+  toks_ok reg (s_toks _ s) ptoks (s_ncalls _ s)
+  /\ (forall i, cache_ok reg (ch_of _ s i) ptoks)
+  /\ (forall i, (length (ch_of _ s i) <= cap_of _ s i)%nat).
+
+(* ---- the LRU list ---- *)
+Lemma get_remove_key c c0 ch :
+  cache_get c0 (remove_key c ch) = if c =? c0 then None else cache_get c0 ch.
+Proof.
+  induction ch as [|[c' r] t IH]; cbn [remove_key cache_get]; [now destruct (c =? c0)|].
+  destruct (c' =? c) eqn:E1.
+  - apply N.eqb_eq in E1; subst c'. rewrite IH. destruct (c =? c0); reflexivity.
+  - cbn [cache_get]. rewrite IH. destruct (c' =? c0) eqn:E2; [|reflexivity].
+    apply N.eqb_eq in E2; subst c'. rewrite N.eqb_sym in E1. now rewrite E1.
+Qed.
+
+(* trimming the back never changes what a surviving key maps to *)
+Lemma get_firstn n c ch r : cache_get c (firstn n ch) = Some r -> cache_get c ch = Some r.
+Proof.
+  revert ch; induction n as [|n IH]; intros [|[c' r'] t]; cbn [firstn cache_get]; try discriminate.
+  destruct (c' =? c); auto.
+Qed.
+
+Lemma get_put cap c r ch c0 r0 :
+  cache_get c0 (cache_put cap c r ch) = Some r0 ->
+  (c0 = c /\ r0 = r) \/ (c0 <> c /\ cache_get c0 ch = Some r0).
+Proof.
+  unfold cache_put. intros H. apply get_firstn in H. cbn [cache_get] in H.
+  destruct (c =? c0) eqn:E.
+  - apply N.eqb_eq in E; subst. inversion H; auto.
+  - rewrite get_remove_key, E in H. apply N.eqb_neq in E. right; split; auto.
+Qed.
+
+(* a hit only reorders *)
+Lemma get_touch c ch c0 : cache_get c0 (touch c ch) = cache_get c0 ch.
+Proof.
+  unfold touch. destruct (cache_get c ch) as [r|] eqn:E; [|reflexivity].
+  cbn [cache_get]. destruct (c =? c0) eqn:E0.
+  - apply N.eqb_eq in E0; subst. now rewrite E.
+  - now rewrite get_remove_key, E0.
+Qed.
+
+Lemma length_remove_key c ch : (length (remove_key c ch) <= length ch)%nat.
+Proof.
+  induction ch as [|[c' r] t IH]; cbn [remove_key length]; [lia|].
+  destruct (c' =? c); cbn [length]; lia.
+Qed.
+Lemma length_remove_key_hit c ch r :
+  cache_get c ch = Some r -> (S (length (remove_key c ch)) <= length ch)%nat.
+Proof.
+  induction ch as [|[c' r'] t IH]; cbn [remove_key cache_get length]; [discriminate|].
+  destruct (c' =? c); intros H.
+  - pose proof (length_remove_key c t). lia.
+  - cbn [length]. specialize (IH H). lia.
+Qed.
+Lemma length_touch c ch : (length (touch c ch) <= length ch)%nat.
+Proof.
+  unfold touch. destruct (cache_get c ch) as [r|] eqn:E; [|lia].
+  cbn [length]. eapply length_remove_key_hit; eauto.
+Qed.
+Lemma length_put cap c r ch : (length (cache_put cap c r ch) <= cap)%nat.
+Proof. unfold cache_put. rewrite firstn_length. lia. Qed.
 
 Lemma cache_ok_nil reg ptoks : cache_ok reg [] ptoks.
 Proof. intros c r H; discriminate. Qed.
@@ -347,46 +409,67 @@ Proof.
   intros H c r Hg. destruct (H c r Hg) as (k & m & info & Hin & Hl & Hn).
   exists k, m, info. split; [apply in_or_app; auto | auto].
 Qed.
-Lemma cache_ok_put reg ch ptoks c r k m info :
-  cache_ok reg ch ptoks -> In (k, m, c) ptoks -> lookup reg m = Some info -> r_meth r = m_name info ->
-  cache_ok reg (cache_put c r ch) ptoks.
+Lemma cache_ok_put reg cap ch ptoks c r k m info :
+  cache_ok reg ch ptoks -> In (k, m, c) ptoks -> lookup reg m = Some info -> r = resolved_for info c ->
+  cache_ok reg (cache_put cap c r ch) ptoks.
 Proof.
-  intros H Hin Hl Hn c0 r0. unfold cache_put; cbn [cache_get].
-  destruct (c =? c0) eqn:E.
-  - apply N.eqb_eq in E; subst c0. intros Hs; inversion Hs; subst. eauto 6.
-  - apply H.
+  intros H Hin Hl Hn c0 r0 Hg. apply get_put in Hg as [[-> ->] | [_ Hg]]; [eauto 6 | exact (H _ _ Hg)].
 Qed.
+Lemma cache_ok_touch reg ch ptoks c : cache_ok reg ch ptoks -> cache_ok reg (touch c ch) ptoks.
+Proof. intros H c0 r0. rewrite get_touch. apply H. Qed.
 
 (* projections through the state updates *)
-Lemma toks_set_cache (s : stS) i on ch : s_toks _ (set_cache _ s i on ch) = s_toks _ s.
+Lemma toks_set_cache (s : stS) i cap ch : s_toks _ (set_cache _ s i cap ch) = s_toks _ s.
 Proof. destruct i; reflexivity. Qed.
-Lemma ncalls_set_cache (s : stS) i on ch : s_ncalls _ (set_cache _ s i on ch) = s_ncalls _ s.
+Lemma ncalls_set_cache (s : stS) i cap ch : s_ncalls _ (set_cache _ s i cap ch) = s_ncalls _ s.
 Proof. destruct i; reflexivity. Qed.
-Lemma ch_set_cache (s : stS) i on ch j :
-  ch_of _ (set_cache _ s i on ch) j = if Bool.eqb i j then ch else ch_of _ s j.
+Lemma ch_set_cache (s : stS) i cap ch j :
+  ch_of _ (set_cache _ s i cap ch) j = if Bool.eqb i j then ch else ch_of _ s j.
+Proof. destruct i, j; reflexivity. Qed.
+Lemma cap_set_cache (s : stS) i cap ch j :
+  cap_of _ (set_cache _ s i cap ch) j = if Bool.eqb i j then cap else cap_of _ s j.
 Proof. destruct i, j; reflexivity. Qed.
 Lemma toks_store (s : stS) i p : s_toks _ (store _ s i p) = s_toks _ s.
-Proof. unfold store. destruct p as [[c r]|]; [|reflexivity]. destruct (on_of _ s i); [apply toks_set_cache|reflexivity]. Qed.
+Proof. unfold store. destruct p as [[c r]|]; [apply toks_set_cache|reflexivity]. Qed.
 Lemma ncalls_store (s : stS) i p : s_ncalls _ (store _ s i p) = s_ncalls _ s.
-Proof. unfold store. destruct p as [[c r]|]; [|reflexivity]. destruct (on_of _ s i); [apply ncalls_set_cache|reflexivity]. Qed.
+Proof. unfold store. destruct p as [[c r]|]; [apply ncalls_set_cache|reflexivity]. Qed.
+Lemma toks_touched (s : stS) i t : s_toks _ (touched _ s i t) = s_toks _ s.
+Proof. unfold touched. destruct t; [apply toks_set_cache|reflexivity]. Qed.
+Lemma ncalls_touched (s : stS) i t : s_ncalls _ (touched _ s i t) = s_ncalls _ s.
+Proof. unfold touched. destruct t; [apply ncalls_set_cache|reflexivity]. Qed.
 Lemma ch_add_toks (s : stS) ts a b j : ch_of _ (add_toks _ s ts a b) j = ch_of _ s j.
 Proof. destruct j; reflexivity. Qed.
+Lemma cap_add_toks (s : stS) ts a b j : cap_of _ (add_toks _ s ts a b) j = cap_of _ s j.
+Proof. destruct j; reflexivity. Qed.
 
-Lemma inv_set_cache reg s ptoks i on ch :
-  inv reg s ptoks -> cache_ok reg ch ptoks -> inv reg (set_cache _ s i on ch) ptoks.
+Lemma inv_set_cache reg s ptoks i cap ch :
+  inv reg s ptoks -> cache_ok reg ch ptoks -> (length ch <= cap)%nat ->
+  inv reg (set_cache _ s i cap ch) ptoks.
 Proof.
-  intros [Ht Hc] Hch. split.
+  intros (Ht & Hc & Hl) Hch Hlen. split; [|split].
   - now rewrite toks_set_cache, ncalls_set_cache.
   - intros j. rewrite ch_set_cache. destruct (Bool.eqb i j); auto.
+  - intros j. rewrite ch_set_cache, cap_set_cache. destruct (Bool.eqb i j); auto.
 Qed.
+
+Lemma inv_empty_cache reg s ptoks i cap : inv reg s ptoks -> inv reg (set_cache _ s i cap []) ptoks.
+Proof. intros H. apply inv_set_cache; [exact H | apply cache_ok_nil | cbn; lia]. Qed.
 
 Lemma inv_store reg s ptoks i c r :
   inv reg s ptoks ->
-  (exists k m info, In (k, m, c) ptoks /\ lookup reg m = Some info /\ r_meth r = m_name info) ->
+  (exists k m info, In (k, m, c) ptoks /\ lookup reg m = Some info /\ r = resolved_for info c) ->
   inv reg (store _ s i (Some (c, r))) ptoks.
 Proof.
-  intros Hi (k & m & info & Hin & Hl & Hn). unfold store. destruct (on_of _ s i); [|exact Hi].
-  apply inv_set_cache; [exact Hi|]. destruct Hi as [_ Hc]. eapply cache_ok_put; eauto.
+  intros Hi (k & m & info & Hin & Hl & Hn). unfold store.
+  apply inv_set_cache; [exact Hi | | apply length_put]. destruct Hi as (_ & Hc & _). eapply cache_ok_put; eauto.
+Qed.
+
+Lemma inv_touched reg s ptoks i t : inv reg s ptoks -> inv reg (touched _ s i t) ptoks.
+Proof.
+  intros Hi. unfold touched. destruct t as [c|]; [|exact Hi].
+  pose proof Hi as (_ & Hc & Hl).
+  apply inv_set_cache; [exact Hi | apply cache_ok_touch, Hc |].
+  etransitivity; [apply length_touch | apply Hl].
 Qed.
 
 Lemma inv_add reg s ptoks ts pvs dc dn :
@@ -395,7 +478,7 @@ Lemma inv_add reg s ptoks ts pvs dc dn :
   (forall k m c k' m', In (k, m, c) (ptoks ++ pvs) -> In (k', m', c) pvs -> m = m') ->
   inv reg (add_toks _ s ts dc dn) (ptoks ++ pvs).
 Proof.
-  intros [(Hf & Hfr & Hown) Hc] Hts Hnew Hownew. split; [split; [|split]|].
+  intros ((Hf & Hfr & Hown) & Hc & Hlen) Hts Hnew Hownew. split; [split; [|split]|split].
   - cbn [add_toks s_toks]. apply Forall2_app; assumption.
   - cbn [add_toks s_ncalls]. intros k m c Hin. apply in_app_or in Hin as [Hin|Hin].
     + specialize (Hfr _ _ _ Hin). lia.
@@ -405,6 +488,7 @@ Proof.
       symmetry. eapply Hownew; [apply in_or_app; left; exact H2 | exact H1].
     + eapply Hownew; eauto.
   - intros j. rewrite ch_add_toks. apply cache_ok_app, Hc.
+  - intros j. rewrite ch_add_toks, cap_add_toks. apply Hlen.
 Qed.
 
 (* ---- presented tokens versus their provenance ---- *)
@@ -446,7 +530,7 @@ Qed.
 Lemma call_slot_opens reg (s : stS) ptoks call t c r :
   Forall2 (wf_tok reg) (s_toks _ s) ptoks ->
   deref _ s KCall call = Some t -> openS KCall t = Some (PCall c r) ->
-  exists m info, In (KCall, m, c) ptoks /\ lookup reg m = Some info /\ r_meth r = m_name info.
+  exists m info, In (KCall, m, c) ptoks /\ lookup reg m = Some info /\ r = resolved_for info c.
 Proof.
   intros Hf Hd Ho. destruct call as [|id re]; [discriminate|].
   destruct (pderef ptoks (TTok id re)) as [pv|] eqn:Ep.
@@ -465,18 +549,18 @@ Lemma inv_cache_names reg s ptoks i k m c info :
   inv reg s ptoks -> In (k, m, c) ptoks -> lookup reg m = Some info ->
   cache_names (on_of _ s i) (ch_of _ s i) c (m_name info).
 Proof.
-  intros [(_ & _ & Hown) Hc] Hin Hl r _ Hg.
+  intros ((_ & _ & Hown) & Hc & _) Hin Hl r _ Hg.
   destruct (Hc i c r Hg) as (k2 & m2 & info2 & Hin2 & Hl2 & Hn).
-  assert (m2 = m) by (eapply Hown; eauto). subst m2. congruence.
+  assert (m2 = m) by (eapply Hown; eauto). subst m2 r. cbn [resolved_for r_meth]. congruence.
 Qed.
 
 Lemma inv_slot_names reg s ptoks call k m c info :
   inv reg s ptoks -> In (k, m, c) ptoks -> lookup reg m = Some info ->
   slot_names sym_ct sym_open (deref _ s KCall call) c (m_name info).
 Proof.
-  intros [(Hf & _ & Hown) _] Hin Hl t r Hd Ho.
+  intros ((Hf & _ & Hown) & _) Hin Hl t r Hd Ho.
   destruct (call_slot_opens reg s ptoks call t c r Hf Hd Ho) as (m2 & info2 & Hin2 & Hl2 & Hn).
-  assert (m2 = m) by (eapply Hown; eauto). subst m2. congruence.
+  assert (m2 = m) by (eapply Hown; eauto). subst m2 r. cbn [resolved_for r_meth]. congruence.
 Qed.
 
 Lemma one_turn_trace route info s cancel :
@@ -494,7 +578,7 @@ Lemma cont_ok_model reg s ptoks i route cur call cancel b rfail :
     (o_res (contS reg route b cancel rfail (on_of _ s i) (ch_of _ s i)
                   (deref _ s KCursor cur) (deref _ s KCall call))) = true.
 Proof.
-  intros Hreg Hinv. pose proof Hinv as [(Hf & Hfr & Hown) Hc].
+  intros Hreg Hinv. pose proof Hinv as ((Hf & Hfr & Hown) & Hc & _).
   unfold cont_ok. rewrite (cont_no_panic sym_ct sym_open), (cont_tags sym_ct sym_open).
   cbn [negb andb]. rewrite andb_true_r. apply andb_true_iff; split.
   - (* foreign_ok *)
@@ -552,8 +636,9 @@ Proof.
     destruct Hp' as [-> (info2 & Hl2 & Hn2)].
     rewrite El in Hl1, Hl2. inversion Hl1; inversion Hl2; subst info1 info2.
     rewrite Hd, Hd'.
+    assert (Hn2' : r_meth r2 = m_name info) by (rewrite Hn2; reflexivity).
     pose proof (own_accepted_lemma sym_ct sym_seal sym_open sym_open_seal reg route info c s1 n n' r2 b
-                  cancel (on_of _ s i) (ch_of _ s i) El Hn2) as H. cbv zeta in H.
+                  cancel (on_of _ s i) (ch_of _ s i) El Hn2') as H. cbv zeta in H.
     destruct H as [Hres _].
     + rewrite Hs1. apply init_fits_state_fits. eapply reg_ok_fits; eauto.
     + eapply inv_cache_names; eauto. eapply nth_error_In; eauto.
@@ -567,19 +652,20 @@ Lemma cont_inv reg s ptoks i route cur call cancel b rfail :
   reg_ok reg = true -> inv reg s ptoks ->
   let out := contS reg route b cancel rfail (on_of _ s i) (ch_of _ s i)
                    (deref _ s KCursor cur) (deref _ s KCall call) in
-  let s1 := store _ s i (o_put out) in
+  let s1 := store _ (touched _ s i (o_touch out)) i (o_put out) in
   let s2 := match o_next out with
             | Some (c, nx) => add_toks _ s1 [mintS (s_nonce _ s1) (PCursor c nx)] 0 1
             | None => s1
             end in
   inv reg s2 (next_ptoks ptoks (pderef ptoks cur) (o_res out)) /\ s_ncalls _ s2 = s_ncalls _ s.
 Proof.
-  intros Hreg Hinv. cbv zeta. pose proof Hinv as [(Hf & Hfr & Hown) Hc].
+  intros Hreg Hinv. cbv zeta. pose proof Hinv as ((Hf & Hfr & Hown) & Hc & _).
   remember (contS reg route b cancel rfail (on_of _ s i) (ch_of _ s i)
                   (deref _ s KCursor cur) (deref _ s KCall call)) as out eqn:Eout.
-  assert (Hinv1 : inv reg (store _ s i (o_put out)) ptoks).
-  { destruct (o_put out) as [[c r]|] eqn:Eput; [|exact Hinv].
-    apply inv_store; [exact Hinv|]. rewrite Eout in Eput.
+  assert (Hinv0 : inv reg (touched _ s i (o_touch out)) ptoks) by (apply inv_touched, Hinv).
+  assert (Hinv1 : inv reg (store _ (touched _ s i (o_touch out)) i (o_put out)) ptoks).
+  { destruct (o_put out) as [[c r]|] eqn:Eput; [|exact Hinv0].
+    apply inv_store; [exact Hinv0|]. rewrite Eout in Eput.
     apply cont_put in Eput as (tcur & s0 & t & Hd & Ho & Hdk & Hok).
     destruct (call_slot_opens reg s ptoks call t c r Hf Hdk Hok) as (m & info & Hin & Hl & Hn). eauto 8. }
   pose proof (cont_next sym_ct sym_open reg route b cancel rfail (on_of _ s i) (ch_of _ s i)
@@ -591,32 +677,32 @@ Proof.
     unfold next_ptoks. rewrite Htok, Hp. split.
     + apply inv_add.
       * exact Hinv1.
-      * constructor; [|constructor]. exists (s_nonce _ (store _ s i (o_put out))), (PCursor c nx).
+      * constructor; [|constructor]. eexists _, (PCursor c nx).
         split; [reflexivity|]. cbn [pay_ok]. split; [reflexivity|]. exists info. split; [auto|congruence].
-      * intros k0 m0 c0 [H|[]]. inversion H; subst. rewrite ncalls_store. specialize (Hfr _ _ _ Hin). lia.
+      * intros k0 m0 c0 [H|[]]. inversion H; subst. rewrite ncalls_store, ncalls_touched. specialize (Hfr _ _ _ Hin). lia.
       * intros k0 m0 c0 k' m' H1 [H2|[]]. inversion H2; subst. apply in_app_or in H1 as [H1|[H1|[]]].
         -- eapply Hown; eauto.
         -- inversion H1; auto.
-    + cbn [add_toks s_ncalls]. rewrite ncalls_store. lia.
-  - unfold next_ptoks. rewrite Hnx. split; [exact Hinv1|]. apply ncalls_store.
+    + cbn [add_toks s_ncalls]. rewrite ncalls_store, ncalls_touched. lia.
+  - unfold next_ptoks. rewrite Hnx. split; [exact Hinv1|]. rewrite ncalls_store. apply ncalls_touched.
 Qed.
 
 Lemma init_inv reg s ptoks i m info :
   reg_ok reg = true -> inv reg s ptoks -> lookup reg m = Some info ->
   let c := s_ncalls _ s in
   let s0 := {| st_ty := m_sty info; st_pos := if is_producer (m_mode info) (m_sty info) then 1 else 0 |} in
-  let r := {| r_meth := m_name info; r_schema := true; r_stream := c |} in
+  let r := resolved_for info c in
   let s' := store _ (add_toks _ s [mintS (s_nonce _ s) (PCursor c s0); mintS (s_nonce _ s + 1) (PCall c r)] 1 2)
                   i (Some (c, r)) in
   inv reg s' (ptoks ++ [(KCursor, m, c); (KCall, m, c)]) /\ s_ncalls _ s' = c + 1.
 Proof.
-  intros Hreg Hinv Hl. cbv zeta. pose proof Hinv as [(Hf & Hfr & Hown) Hc]. split.
+  intros Hreg Hinv Hl. cbv zeta. pose proof Hinv as ((Hf & Hfr & Hown) & Hc & _). split.
   - apply inv_store.
     + apply inv_add.
       * exact Hinv.
       * constructor; [|constructor; [|constructor]].
         -- eexists _, (PCursor _ _). split; [reflexivity|]. cbn [pay_ok st_ty]. eauto.
-        -- eexists _, (PCall _ _). split; [reflexivity|]. cbn [pay_ok r_meth]. eauto.
+        -- eexists _, (PCall _ _). split; [reflexivity|]. cbn [pay_ok]. eauto.
       * intros k0 m0 c0 [H|[H|[]]]; inversion H; subst; lia.
       * intros k0 m0 c0 k' m' H1 H2.
         assert (c0 = s_ncalls _ s /\ m' = m) as [-> ->]
@@ -644,13 +730,13 @@ Proof.
       destruct H as [Hi Hn]. subst nc. apply IH; [exact Hi | exact Hn].
     + cbn [spec_run]. rewrite El. cbn. apply IH; auto.
   - cbn [spec_run]. cbn [quiet r_panic r_trace no_code negb andb]. apply IH.
-    + apply inv_set_cache; [exact Hinv | apply cache_ok_nil].
+    + apply inv_empty_cache; exact Hinv.
     + now rewrite ncalls_set_cache.
   - cbn [spec_run]. cbn [quiet r_panic r_trace no_code negb andb]. apply IH.
-    + apply inv_set_cache; [exact Hinv | apply cache_ok_nil].
+    + apply inv_empty_cache; exact Hinv.
     + now rewrite ncalls_set_cache.
   - cbn [spec_run]. cbn [quiet r_panic r_trace no_code negb andb]. apply IH.
-    + apply inv_set_cache; [exact Hinv | apply cache_ok_nil].
+    + apply inv_empty_cache; exact Hinv.
     + now rewrite ncalls_set_cache.
   - (* continuation *)
     cbn [spec_run]. apply andb_true_iff; split.
@@ -667,7 +753,7 @@ Qed.
 
 Lemma inv_st0 reg : inv reg (st0 sym_ct) [].
 Proof.
-  split; [split; [constructor | split; intros; contradiction] | intros [|]; apply cache_ok_nil].
+  split; [split; [constructor | split; intros; contradiction] | split; intros [|]; try apply cache_ok_nil; cbn; lia].
 Qed.
 
 Lemma spec_ok_model_lemma i : spec_ok i (model i) = true.
@@ -707,9 +793,9 @@ Proof.
     + rewrite (reg_ok_fits reg m info Hreg El) in Es. cbn [negb] in Es. inversion Es; subst.
       pose proof (init_inv reg s ptoks i m info Hreg Hinv El) as H. cbv zeta in H. apply H.
     + inversion Es; subst. exact Hinv.
-  - inversion Es; subst. apply inv_set_cache; [exact Hinv | apply cache_ok_nil].
-  - inversion Es; subst. apply inv_set_cache; [exact Hinv | apply cache_ok_nil].
-  - inversion Es; subst. apply inv_set_cache; [exact Hinv | apply cache_ok_nil].
+  - inversion Es; subst. apply inv_empty_cache; exact Hinv.
+  - inversion Es; subst. apply inv_empty_cache; exact Hinv.
+  - inversion Es; subst. apply inv_empty_cache; exact Hinv.
   - inversion Es; subst.
     pose proof (cont_inv reg s ptoks i route cur call cancel b rfail Hreg Hinv) as H. cbv zeta in H. apply H.
 Qed.
@@ -734,6 +820,20 @@ Proof.
   apply N.eqb_eq in Hst. apply negb_true_iff in Hp, Htok. unfold no_code in Hcode.
   repeat split; auto.
   destruct (r_trace _); [reflexivity | discriminate].
+Qed.
+
+(* ---- eviction is sound: whatever a bounded LRU cache still holds is what was minted -- *)
+Lemma reachable_cache_lemma reg pre : reg_ok reg = true ->
+  let s := exec sym_ct sym_seal reg contS (st0 sym_ct) pre in
+  let ptoks := ptoks_after reg (st0 sym_ct) [] pre in
+  forall i,
+    (length (ch_of _ s i) <= cap_of _ s i)%nat
+    /\ forall c r, cache_get c (ch_of _ s i) = Some r ->
+         exists k m info, In (k, m, c) ptoks /\ lookup reg m = Some info /\ r = resolved_for info c.
+Proof.
+  intros Hreg s ptoks i.
+  assert (Hinv : inv reg s ptoks) by (apply reach_inv; [exact Hreg | apply inv_st0]).
+  destruct Hinv as (_ & Hc & Hl). split; [apply Hl | apply Hc].
 Qed.
 
 (* ---- the code before the repair ------------------------------------------------- *)
